@@ -746,6 +746,24 @@ func (b *builder) addFixed() {
 		Method{Name: "Index", Results: []Param{{"", mapT}}},
 		Method{Name: "Tags", Params: []Param{{"prefix", str}}, Results: []Param{{"", local(t.Locals.Map)}, {"", er}}},
 		Method{Name: "Parts", Results: []Param{{"", slice(str)}, {"", ptr(local(t.Locals.Struct))}, {"", &T{Kind: KChan, Elem: in}}, {"", &T{Kind: KFunc}}}})
+	// method names that conventions attach behaviour to (Must*), and parameters that are maps of slices
+	mk("FxMust",
+		Method{Name: "MustLoad", Params: []Param{{"key", str}}, Results: []Param{{"", str}}},
+		Method{Name: "MustClose"})
+	hdr := pkgT(httpD, "Header")
+	mk("FxHeaders",
+		Method{Name: "Send", Params: []Param{{"path", str}, {"header", hdr}}, Results: []Param{{"", er}}},
+		Method{Name: "Query", Params: []Param{{"q", pkgT(urlD, "Values")}}, Results: []Param{{"", in}, {"", er}}},
+		Method{Name: "Label", Params: []Param{{"id", in}, {"labels", &T{Kind: KMap, Key: str, Elem: slice(str)}}}})
+	// a method of one interface spelled like the accessor moq generates for a method of another one
+	mk("FxStats",
+		Method{Name: "GetCalls", Results: []Param{{"", in}}},
+		Method{Name: "Hits", Results: []Param{{"", in}}})
+	mk("FxCache",
+		Method{Name: "Get", Params: []Param{{"key", str}}, Results: []Param{{"", str}, {"", bl}}},
+		Method{Name: "Put", Params: []Param{{"key", str}, {"v", str}}})
+	// heap.Interface embeds sort.Interface: requested together, the mocks share method objects
+	t.FixedRequests = append(t.FixedRequests, []string{"FxStats", "FxCache"}, []string{"FxCache", "FxStats"}, []string{"FxSort", "FxHeap"}, []string{"FxHeap", "FxSort", "FxIO"})
 	mk("FxEmpty")
 	mk("FxMarker")
 	mk("FxSingle",
@@ -961,7 +979,10 @@ func NewMatrixTree(kind string, hz Hazards) *Tree {
 		add("MxDerived", ms)
 	case "reserved":
 		words := []string{"Mock", "CallInfo", "Break", "Default", "Func", "Interface", "Select", "Case", "Defer", "Go", "Map", "Struct", "Chan", "Else", "Goto", "Package", "Switch", "Const", "Fallthrough", "If", "Range", "Type", "Continue", "For", "Import", "Return", "Var",
-			"String", "Bool", "Byte", "Rune", "Uintptr", "Int", "Int8", "Int16", "Int32", "Int64", "Uint", "Uint8", "Uint16", "Uint32", "Uint64", "Float32", "Float64", "Complex64", "Complex128"}
+			"String", "Bool", "Byte", "Rune", "Uintptr", "Int", "Int8", "Int16", "Int32", "Int64", "Uint", "Uint8", "Uint16", "Uint32", "Uint64", "Float32", "Float64", "Complex64", "Complex128",
+			// universe identifiers that are neither keywords nor basic type names and that generated bodies never use:
+			// these are NOT reserved, the derived name is kept (nil, panic and append are used by the bodies and left out)
+			"Error", "Any", "Len", "Cap", "New", "Make", "Copy", "Close", "Delete", "Print", "Println", "Min", "Max", "Clear", "Complex", "Real", "Imag", "True", "False", "Iota", "Comparable", "Recover"}
 		var decl strings.Builder
 		var ms []Method
 		for i, w := range words {
